@@ -47,7 +47,7 @@ def config(rng, t, st, methods):
     if rng.random() < 0.06:
         # "no limit" (u64::MAX) ended by a threshold the first iteration already meets: one iteration, every thread count
         T = 2 ** 64 - 1
-        r = 1e9
+        r = float("inf")      # met by every finite bound, whatever the payoff unit
     draws = draws_for(rng, t, st) if method != "full" else None
     return method, params, T, r, draws
 
